@@ -10,6 +10,32 @@ NOTE = ("Trusted base: the oracles/reference models in /verif/sim/src (small, sh
         "evidence, not proof.")
 
 CHECKS = {
+    "C05": dict(
+        text="Seeded exploration of dfs{} programs under every leaf timing/shape, yield and reorder: an observer goal placed "
+             "last inside the dfs block must see the block's answers in exactly the reference interpreter's depth-first "
+             "order (also when the block is one branch of an interleaving conde), and with the exact schedule the "
+             "ResultIterator order must match too on list-free programs. Exploration: the order must survive every "
+             "suspension pattern of the leaves, which can only be sampled. One genuine defect of the pinned tree is a "
+             "listed known finding (iterator order of dfs answers with lists).",
+        design="7 (C05), 4 (R1)",
+        technique="deterministic simulation: scripted DFS leaves + seeded yields against a reference DFS interpreter, position-by-position order oracle",
+    ),
+    "C07": dict(
+        text="Bounded liveness under simulated leaf timing: every productive alternative of a disjunction tree is first run "
+             "alone to measure the quanta T for its first <=3 answers; in the full disjunction (next to infinite producers and "
+             "silent divergers) the same answers must appear within K*2^m*(T+8)+2048 scheduler quanta of the step clock hook. "
+             "A starved branch never appears whatever the bound; the measured worst case uses <4% of the bound on the unchanged tree.",
+        design="7 (C07), 1 (N2, N5)",
+        technique="deterministic simulation: step-clock budget, scripted producers/divergers, progress-within-N-quanta oracle",
+    ),
+    "C08": dict(
+        text="Seeded exploration of conda/condu/onceo programs whose head goals answer late, in bursts, via iterators, from dfs "
+             "blocks or from never-ending producers: the engine's answer multiset must be the reference soft-cut multiset for "
+             "some choice of exactly one head answer per evaluated condu/onceo (the first one wherever the head's order is "
+             "deterministic). Exploration over head timing is what decides whether peek/trunc mature and cancel correctly.",
+        design="7 (C08), 4 (R1)",
+        technique="deterministic simulation: scripted head latency + cancellation, reference soft-cut interpreter with choice-function oracle",
+    ),
     "C06": dict(
         text="Seeded exploration of (search program x leaf timing script x iteration-order policy x yield sites): on finite "
              "trees the interleaving answer multiset must equal an independent reference interpreter and the same program "
